@@ -20,13 +20,16 @@ EXTENDS Naturals, Sequences, FiniteSets, TLC, Json
 
 CONSTANTS MaxSteps, Emit
 
-VARIABLES root, steps, ty, mut
-vars == <<root, steps, ty, mut>>
+VARIABLES root, steps, ty, mut, imm
+vars == <<root, steps, ty, mut, imm>>
 
 (* pointer types: [to |-> pointee, m |-> mutable] *)
 Ptr == [PmT |-> [to |-> "T", m |-> TRUE],  PiT |-> [to |-> "T", m |-> FALSE],
         PmS |-> [to |-> "S", m |-> TRUE],  PiS |-> [to |-> "S", m |-> FALSE],
-        PmA |-> [to |-> "A", m |-> TRUE],  PiA |-> [to |-> "A", m |-> FALSE]]
+        PmA |-> [to |-> "A", m |-> TRUE],  PiA |-> [to |-> "A", m |-> FALSE],
+        \* pointers to pointers: ^^S, ^ ^mut S, ^mut ^S, ^mut ^mut S
+        PiPiS |-> [to |-> "PiS", m |-> FALSE], PiPmS |-> [to |-> "PmS", m |-> FALSE],
+        PmPiS |-> [to |-> "PiS", m |-> TRUE],  PmPmS |-> [to |-> "PmS", m |-> TRUE]]
 IsPtr(t) == t \in DOMAIN Ptr
 
 Fields == [S |-> [a |-> "i32", arr |-> "A", inner |-> "T", pm |-> "PmT", pi |-> "PiT", o |-> "OT",
@@ -35,6 +38,15 @@ Fields == [S |-> [a |-> "i32", arr |-> "A", inner |-> "T", pm |-> "PmT", pi |-> 
            T |-> [v |-> "i32"]]
 IsStruct(t) == t \in DOMAIN Fields
 
+(* member access and indexing dereference every pointer level of their base:
+   Peel(t) = <<the type finally reached, the last pointer type crossed>> *)
+RECURSIVE Peel(_, _)
+Peel(t, last) == IF IsPtr(t) THEN Peel(Ptr[t].to, t) ELSE <<t, last>>
+RECURSIVE AnyImm(_)
+AnyImm(t) == IF IsPtr(t) THEN (~Ptr[t].m) \/ AnyImm(Ptr[t].to) ELSE FALSE
+Base(t) == Peel(t, "")[1]
+LastOf(t) == Peel(t, "")[2]
+
 (* root |-> <<type, the binding itself may be assigned / mutated in place>> *)
 Roots == [lm |-> <<"S", TRUE>>, li |-> <<"S", FALSE>>, ps |-> <<"S", FALSE>>, gg |-> <<"G", FALSE>>,
           vm |-> <<"PmS", TRUE>>, vi |-> <<"PiS", TRUE>>, cm |-> <<"PmS", FALSE>>,
@@ -42,28 +54,39 @@ Roots == [lm |-> <<"S", TRUE>>, li |-> <<"S", FALSE>>, ps |-> <<"S", FALSE>>, gg
           \* am : ^S = ^mut s  (an immutable pointer type initialised from a mutable reference)
           am |-> <<"PiS", TRUE>>,
           \* results of calls: fi :: () -> ^S, fm :: () -> ^mut S  (not places themselves)
-          fi |-> <<"PiS", FALSE>>, fm |-> <<"PmS", FALSE>>]
+          fi |-> <<"PiS", FALSE>>, fm |-> <<"PmS", FALSE>>,
+          \* ii := ^vi   im := ^vm   mi := ^mut vi   mm := ^mut vm   (pointers to the pointer locals)
+          ii |-> <<"PiPiS", TRUE>>, im |-> <<"PiPmS", TRUE>>, mi |-> <<"PmPiS", TRUE>>, mm |-> <<"PmPmS", TRUE>>,
+          \* parameters qii: ^^S, qmi: ^mut ^S, qmm: ^mut ^mut S
+          qii |-> <<"PiPiS", FALSE>>, qmi |-> <<"PmPiS", FALSE>>, qmm |-> <<"PmPmS", FALSE>>]
 
 Init == /\ root \in DOMAIN Roots
         /\ steps = <<>>
         /\ ty = Roots[root][1]
         /\ mut = Roots[root][2]
+        /\ imm = FALSE
 
-Step(s, t, m) == /\ Len(steps) < MaxSteps
-                 /\ steps' = Append(steps, s)
-                 /\ ty' = t
-                 /\ mut' = m
-                 /\ UNCHANGED root
+(* imm: some immutable pointer has been crossed on the way.  imm /\ mut (an immutable pointer, then
+   a ^mut one: `vi.pm.v`, `im^.a`) is reported as "mixed": the data lives behind the ^mut pointer,
+   not in what the immutable pointer points at, so the last pointer crossed decides. *)
+StepI(s, t, m, i) == /\ Len(steps) < MaxSteps
+                     /\ steps' = Append(steps, s)
+                     /\ ty' = t
+                     /\ mut' = m
+                     /\ imm' = (imm \/ i)
+                     /\ UNCHANGED root
+Step(s, t, m) == StepI(s, t, m, FALSE)
 
 FieldStep == /\ IsStruct(ty)
              /\ \E f \in DOMAIN Fields[ty] : Step([k |-> "field", f |-> f], Fields[ty][f], mut)
 IndexStep == ty = "A" /\ Step([k |-> "index", f |-> ""], "i32", mut)
 (* crossing a pointer: from here on the pointer's own mutability decides *)
-DerefStep == IsPtr(ty) /\ Step([k |-> "deref", f |-> ""], Ptr[ty].to, Ptr[ty].m)
-AutoFieldStep == /\ IsPtr(ty) /\ IsStruct(Ptr[ty].to)
-                 /\ \E f \in DOMAIN Fields[Ptr[ty].to] :
-                        Step([k |-> "field", f |-> f], Fields[Ptr[ty].to][f], Ptr[ty].m)
-AutoIndexStep == IsPtr(ty) /\ Ptr[ty].to = "A" /\ Step([k |-> "index", f |-> ""], "i32", Ptr[ty].m)
+DerefStep == IsPtr(ty) /\ StepI([k |-> "deref", f |-> ""], Ptr[ty].to, Ptr[ty].m, ~Ptr[ty].m)
+AutoFieldStep == /\ IsPtr(ty) /\ IsStruct(Base(ty))
+                 /\ \E f \in DOMAIN Fields[Base(ty)] :
+                        StepI([k |-> "field", f |-> f], Fields[Base(ty)][f], Ptr[LastOf(ty)].m, AnyImm(ty))
+AutoIndexStep == IsPtr(ty) /\ Base(ty) = "A"
+                 /\ StepI([k |-> "index", f |-> ""], "i32", Ptr[LastOf(ty)].m, AnyImm(ty))
 ParenStep == /\ (IF steps = <<>> THEN TRUE ELSE steps[Len(steps)].k # "paren")
              /\ Step([k |-> "paren", f |-> ""], ty, mut)
 UnwrapStep == ty = "OT" /\ Step([k |-> "unwrap", f |-> ""], "T", mut)
@@ -79,17 +102,18 @@ LastPtr(t, k, last) ==      \* last = "" (none) or a pointer type name
     IF k > Len(steps) THEN last
     ELSE LET s == steps[k] IN
       IF s.k = "deref" THEN LastPtr(Ptr[t].to, k + 1, t)
-      ELSE IF s.k = "field" /\ IsPtr(t) THEN LastPtr(Fields[Ptr[t].to][s.f], k + 1, t)
+      ELSE IF s.k = "field" /\ IsPtr(t) THEN LastPtr(Fields[Base(t)][s.f], k + 1, LastOf(t))
       ELSE IF s.k = "field" THEN LastPtr(Fields[t][s.f], k + 1, last)
-      ELSE IF s.k = "index" /\ IsPtr(t) THEN LastPtr("i32", k + 1, t)
+      ELSE IF s.k = "index" /\ IsPtr(t) THEN LastPtr("i32", k + 1, LastOf(t))
       ELSE IF s.k = "index" THEN LastPtr("i32", k + 1, last)
       ELSE IF s.k = "unwrap" THEN LastPtr("T", k + 1, last)
       ELSE LastPtr(t, k + 1, last)
 MutableByDefinition ==
     LET lp == LastPtr(Roots[root][1], 1, "") IN
-    IF lp = "" THEN root \in {"lm", "vm", "vi", "am"} ELSE Ptr[lp].m
+    IF lp = "" THEN Roots[root][2] ELSE Ptr[lp].m
 Consistent == mut = MutableByDefinition
 
 Emitted ==
-    Emit => PrintT("REPLAY " \o ToJson([root |-> root, steps |-> steps, ty |-> ty, mutable |-> mut]))
+    Emit => PrintT("REPLAY " \o ToJson([root |-> root, steps |-> steps, ty |-> ty, mutable |-> mut,
+                                     mixed |-> (imm /\ mut)]))
 ================================================================================
